@@ -189,3 +189,47 @@ register('C19', title='invalid settings rejected',
          assumptions=['3-D array, axis 0 or 1, 2-D list of exactly matching shape: reject or position-wise pairing both accepted',
                       'fs = 0 must raise ValueError in whatever layer', 'equal amplitude thresholds: either outcome'],
          quick_shards=8, thorough_shards=16)
+
+register('C14', title='objects = functional API, no stale state',
+         deciding=['history_fit_compared'],
+         rule='random histories of length 2-10 over {fit(sig_k), recompute_edges(r), load, edit a threshold, edit min_n_cycles, edit / delete '
+              'burst options, set centre} on one Bycycle object with 2-4 signals, both methods and centrings, shorthand and full threshold '
+              'names; every history of length <= 3 (4 thorough) over a reduced alphabet, both methods (exhaustive); BycycleGroup 2-D / 3-D fits. '
+              'Oracle: an executable model keeps the user\'s view of the settings (deep copies of what was passed / assigned); after every fit '
+              'the table must equal that of a freshly constructed object with those settings and that of compute_features (expanded names); '
+              'attribute access == columns; recompute_edges(r) == functional recompute_edges with thresholds lowered by r; models mirror '
+              'df_features / sigs. Non-trivial = history with >= 2 successful fits separated by an edit, load or edge recomputation.',
+         floors={'quick': {'nontrivial': 30, 'classes': {'op:recompute': 50, 'op:load': 50, 'op:edit_bk': 30}},
+                 'thorough': {'nontrivial': 5000}},
+         assumptions=['"current settings" = the user\'s view: constructor arguments and later assignments, not what the pipeline wrote into the object\'s dicts',
+                      'after BycycleGroup.recompute_edges the statement is not asserted for df_features vs models (only after fit)'],
+         quick_shards=8, thorough_shards=16)
+
+register('C15', title='purity of the analysis functions',
+         deciding=['purity', 'history_independence'],
+         rule='random call sequences (2-6 calls) over 19 kinds of public calls that SHARE argument objects (signal, threshold / burst / '
+              'find_extrema dicts, option lists, the cycle table, cyclepoint arrays), both burst methods (amplitude twice as often), 30% with '
+              'read-only signal arrays. Monitors: an argument-fingerprint wrapper on 30 public functions compares every argument before and after '
+              'each call (return or raise; nested calls included); each call is then repeated on pristine deep copies and must give the identical '
+              'result. Non-trivial = sequence with >= 2 calls sharing >= 1 mutable argument; distinct by SHA-1 of the case.',
+         floors={'quick': {'nontrivial': 50, 'classes': {'fingerprinted:compute_features': 100, 'fingerprinted:compute_burst_features': 30,
+                                                         'fingerprinted:recompute_edges': 5, 'fingerprinted:compute_features_2d': 10,
+                                                         'fingerprinted:limit_df': 5, 'fingerprinted:epoch_df': 5}},
+                 'thorough': {'nontrivial': 3000}},
+         assumptions=['functions documented to work on their argument (detect_bursts_*, split_samples_df, check_min_burst_cycles, flatten_dfs) '
+                      'are not in the statement and are not monitored; matplotlib axes passed to a plot are not caller data'],
+         quick_shards=8, thorough_shards=16)
+
+register('C16', title='edge recomputation',
+         deciding=['recompute_edges'],
+         rule='generated: tables from consistency detection on bursty / noisy families, both centrings, threshold settings x reductions '
+              '{0, .05, .1, .2}, functional and Bycycle.recompute_edges. Monitor (snapshot + post-condition): input table untouched and a new '
+              'object returned; only amp_consistency / period_consistency / is_burst may differ; non-edge cycles unchanged; each cycle adjacent '
+              'to a maximal True-run of the INPUT labels holds the one-sided (next / last) reference values looking into the burst; labels == '
+              'threshold-and-run reference on the edited table; with reduction 0 no burst cycle is lost. pandas chained-assignment warnings '
+              '(dropped writes) are captured and attached to the witness. Non-trivial = >= 1 burst with an edge cycle whose one-sided value '
+              'differs from its two-sided value.',
+         floors={'quick': {'nontrivial': 50, 'classes': {'edges': 300, 'informative_edges': 100}}, 'thorough': {'nontrivial': 2000}},
+         assumptions=['edge cycle that is the first / last row of the table: unchanged NaN or the one-sided value accepted; a cycle between '
+                      'two bursts: either direction accepted'],
+         quick_shards=8, thorough_shards=16)
